@@ -56,6 +56,7 @@ class Scheduler(object):
         self.aborting = False
         self._ident2thread = {}
         self.yield_counts = {}
+        self.line_codes = None     # set of code objects whose LINE events are pre-emption points in this run
 
     # ---- set-up ----
     def spawn(self, name, fn):
@@ -351,7 +352,7 @@ _line_hits = {}
 
 def _line_callback(code, line):
     s = _scheduler
-    if s is not None and s.active:
+    if s is not None and s.active and s.line_codes is not None and code in s.line_codes:
         key = code.co_name
         _line_hits[key] = _line_hits.get(key, 0) + 1
         s.yield_point('line', (code.co_name, line))
